@@ -676,6 +676,10 @@ var hostile = []string{
 	"steps:\n  - &s {command: x}\n  - *s\n  - <<: *s\n    label: l\n", "x: &x [1, 2]\nsteps:\n  - command: *x\n", "x: &x 5\nsteps:\n  - *x\n",
 	"steps:\n  - command: x\n    \"<<\": 1\n", "steps:\n  - trigger: t\n    build: {env: {A: .inf}}\n", strings.Repeat("[", 200), strings.Repeat("{a: ", 100),
 	"steps:\n" + strings.Repeat("  - wait\n", 300),
+	"steps:\n  - <<: &loop [{label: hello}, *loop]\n    command: test\n",
+	"x: &x [*x]\nsteps:\n  - <<: *x\n    command: y\n",
+	"steps:\n  - <<: &p [&q [*p], *q, {label: l}]\n    command: z\n",
+	"d: &d {a: 1}\nsteps:\n  - <<: &s [*d, [*d, *s]]\n    command: z\n",
 }
 
 // TestWriteSeeds (maintenance): VERIF_WRITE_SEEDS=<dir> writes the built-in hostile seeds as a go fuzz corpus.
